@@ -83,6 +83,10 @@ class Prior(HoloPyObject):
         return self + value
 
     def __sub__(self, value):
+        if getattr(getattr(value, 'dtype', None), 'kind', None) == 'u':
+            # the negative of an unsigned integer wraps around
+            value = (int(value) if np.ndim(value) == 0
+                     else value.astype(float))
         return self + (-value)
 
     def __rsub__(self, value):
